@@ -20,6 +20,8 @@ def run(chk):
     strs = [c["s"] for c in cases]
 
     def oracle(c, a):
+        if isinstance(a, list) and len(a) > 2 and a[1] == "HistoryDependent":
+            return "parse_nvra is not a function of its argument: %s" % a[2]
         if c["parts"] is not None and a != ["ok", c["parts"]]:
             return "parse_nvra(%r) = %r, expected the parts %r" % (c["s"], a, c["parts"])
         return None
